@@ -1500,16 +1500,89 @@ func c12RaceBuild() bool {
 
 // c12ConcurrentChild runs the concurrency part in a child process of this (race-instrumented) binary and converts
 // a race report (stderr "WARNING: DATA RACE", exit code 66) into a property violation.
+// c12ConcurrentConstructed: concurrent FIRST observations of freshly constructed items — wide lists in particular
+// (lazily memoised lengths / encodings often sit behind a size threshold), nested in other lists and inside messages
+// and their re-stamped copies. Every goroutine must read what a sequential reader of an independently built twin
+// reads; under -race this is also where unsynchronised memo fills show (after seeded change C12e-2).
+func c12ConcurrentConstructed(c *Ctx) {
+	r := c.Rng
+	widths := []int{2, 31, 32, 33, 64, 300}
+	for round := 0; round < c.Pick(60, 600); round++ {
+		w := widths[round%len(widths)]
+		tree := &LItem{Kind: "L"}
+		for i := 0; i < w; i++ {
+			tree.Kids = append(tree.Kids, GenLeaf(r, kinds[1+(i+round)%(len(kinds)-1)], 1+i%3))
+		}
+		if round%2 == 1 {
+			tree = &LItem{Kind: "L", Kids: []*LItem{GenLeaf(r, "A", 3), tree, GenLeaf(r, "U2", 2)}}
+		}
+		tree = tree.Normalize()
+		twin := Build(tree, 0)
+		wantLen, wantBytes := twin.EncodedLen(), hexs(twin.ToBytes())
+		live := Build(tree, 0)
+		msg, err := hsms.NewDataMessage(1, 1, true, 7, [4]byte{0, 0, 0, byte(round)}, live)
+		if err != nil {
+			c.Violate("correspondence", "c12-newdatamessage-error", err.Error(), nil)
+			return
+		}
+		tm, _ := hsms.NewDataMessage(1, 1, true, 7, [4]byte{0, 0, 0, byte(round)}, twin)
+		wantFrame, wantBody := hexs(tm.ToBytes()), tm.BodyLen()
+		cp := msg.WithSessionID(7)
+		n := 8
+		var start, done sync.WaitGroup
+		start.Add(1)
+		bad := make([]string, n)
+		for g := 0; g < n; g++ {
+			done.Add(1)
+			go func(g int) {
+				defer done.Done()
+				start.Wait()
+				switch g % 4 {
+				case 0:
+					if l := live.EncodedLen(); l != wantLen {
+						bad[g] = fmt.Sprintf("EncodedLen() = %d, a sequential reader of an identical item gets %d", l, wantLen)
+					}
+				case 1:
+					if b := hexs(live.ToBytes()); b != wantBytes {
+						bad[g] = "ToBytes() differs from a sequential reader's"
+					}
+				case 2:
+					if b := hexs(msg.ToBytes()); b != wantFrame {
+						bad[g] = fmt.Sprintf("message ToBytes() differs from a sequential reader's (length prefix %s vs %s)", b[:8], wantFrame[:8])
+					}
+				default:
+					if l := cp.BodyLen(); l != wantBody {
+						bad[g] = fmt.Sprintf("BodyLen() of a re-stamped copy = %d, want %d", l, wantBody)
+					}
+				}
+			}(g)
+		}
+		start.Done()
+		done.Wait()
+		c.Count(fmt.Sprintf("concurrent-constructed|%d|%d", w, round), true)
+		c.Stat("concurrent:constructed-rounds")
+		for g, b := range bad {
+			if b != "" {
+				c.Violate("property", "concurrent-observation-differs", fmt.Sprintf("constructed list of %d children, goroutine %d: %s", w, g, b),
+					map[string]any{"width": w, "nested": round%2 == 1, "item": clip(tree.Text(), 600)})
+				return
+			}
+		}
+	}
+}
+
 func c12ConcurrentChild(c *Ctx) {
 	exe, err := os.Executable()
 	if err != nil {
 		c.Note("cannot locate own executable (%v): concurrency part run in-process, race reports would not be attributed", err)
 		c12Concurrent(c)
+		c12ConcurrentConstructed(c)
 		return
 	}
 	dir, err := os.MkdirTemp("", "c12race")
 	if err != nil {
 		c12Concurrent(c)
+		c12ConcurrentConstructed(c)
 		return
 	}
 	defer os.RemoveAll(dir)
@@ -1556,6 +1629,7 @@ func c12ConcurrentChild(c *Ctx) {
 func runC12(c *Ctx) {
 	if os.Getenv("C12_CHILD") == "concurrent" {
 		c12Concurrent(c)
+		c12ConcurrentConstructed(c)
 		return
 	}
 	t0 := time.Now()
